@@ -1,6 +1,112 @@
-From Coq Require Import List String.
-From GinV Require Import Model.Values Model.Gin.
+(* C14 — includes act as in-place inclusion; files resolve through ordered locations.
+   Model: Model/Stmt.v (parse_config / parse_config_file / include handling over Model/Parser.v tokens;
+   the file system is an association list (reader, path) -> file, search prefixes and readers are ordered
+   lists).  Proved here:
+     - file resolution: the FIRST search location (in registration order) in which SOME reader can read the
+       name wins, and within it the first reader; an absolute name bypasses the locations; a name nobody
+       can read is an OSError that leaves the configuration untouched (both at top level and in an include);
+     - inclusion in place: an include statement hands over to the included file at that point and the rest
+       of the including file runs on the resulting state; the effect of a file with one include equals the
+       effect of the flattened statement list (store, registry, constants, lock, success / error class);
+       the returned tree mirrors the include structure.
+   NOT proved in Coq: arbitrary nesting depth as ONE theorem (the one-level theorem composes; the
+   correspondence engine textm exercises depth up to 3), package-relative names through the Python path
+   (not modelled) and the multi-file entry point (modelled in Model/StmtEngine.v, validated only). *)
+From Coq Require Import List String ZArith Bool Arith.
+From GinV Require Import Lib.Out Lib.PyStr Model.SelectorMap Model.Parser Model.Stmt Model.StmtSpec Proofs.StmtProofs Proofs.StmtProofs2.
 Import ListNotations.
-Theorem C14_placeholder : prefixes [1;2] = [[]; [1]; [1;2]].
-Proof. reflexivity. Qed.
-Print Assumptions C14_placeholder.
+Open Scope string_scope.
+Open Scope list_scope.
+
+(* ---- ordered resolution ---- *)
+Theorem C14_resolve_order : forall env name full g, is_abs name = false -> resolve_file env name = Some (full, g) ->
+  exists p r, In p (e_prefixes env) /\ In r (e_readers env) /\ full = path_join p name /\
+    al_get rp_eqb (r, full) (e_files env) = Some g /\
+    (exists ps1 ps2 rs1 rs2, e_prefixes env = ps1 ++ p :: ps2 /\ e_readers env = rs1 ++ r :: rs2 /\
+       (forall p', In p' ps1 -> forall r', In r' (e_readers env) -> ~ readable env r' (path_join p' name)) /\
+       (forall r', In r' rs1 -> ~ readable env r' full)).
+Proof. exact StmtProofs2.C14_resolve_order. Qed.
+
+Theorem C14_resolve_first : forall env name p r g ps1 ps2 rs1 rs2,
+  (if is_abs name then [""] else e_prefixes env) = ps1 ++ p :: ps2 -> e_readers env = rs1 ++ r :: rs2 ->
+  al_get rp_eqb (r, path_join p name) (e_files env) = Some g ->
+  (forall p', In p' ps1 -> forall r', In r' (e_readers env) -> ~ readable env r' (path_join p' name)) ->
+  (forall r', In r' rs1 -> ~ readable env r' (path_join p name)) ->
+  resolve_file env name = Some (path_join p name, g).
+Proof. exact StmtProofs2.C14_resolve_first. Qed.
+
+Theorem C14_absolute_bypasses : forall env name, is_abs name = true ->
+  resolve_file env name =
+  resolve_file {| e_files := e_files env; e_readers := e_readers env; e_prefixes := [""]; e_modules := e_modules env |} name.
+Proof. exact StmtProofs2.C14_absolute_bypasses. Qed.
+
+Theorem C14_absolute_full_is_name : forall env name full g, is_abs name = true ->
+  resolve_file env name = Some (full, g) -> full = name.
+Proof. exact StmtProofs2.C14_absolute_full_is_name. Qed.
+
+Theorem C14_missing : forall env name,
+  (forall p r, In p (if is_abs name then [""] else e_prefixes env) -> In r (e_readers env) -> ~ readable env r (path_join p name)) ->
+  resolve_file env name = None.
+Proof. exact StmtProofs2.C14_missing. Qed.
+
+Theorem C14_missing_applies_nothing : forall env sk name s, resolve_file env name = None ->
+  parse_config_file env sk name s = (s, SErr (SEOther "OSError" [])).
+Proof. exact StmtProofs2.C14_missing_applies_nothing. Qed.
+
+Theorem C14_missing_include_applies_nothing : forall f env sk name s, resolve_file env name = None ->
+  inc_of f env sk name s = (s, SErr (SEOther "OSError" [])).
+Proof. exact StmtProofs2.C14_missing_include_applies_nothing. Qed.
+
+(* ---- in place ---- *)
+Theorem C14_include_step : forall env sk fname inc v line rest s im ic,
+  apply_stmts env sk fname inc (SInclude v line :: rest) s im ic =
+  (let '(s', r) := inc (str_of_value v) s in
+   match r with
+   | SErr e => (s', with_loc (fname, line) (SErr e))
+   | SOk t => apply_stmts env sk fname inc rest s' im (ic ++ [t])
+   end).
+Proof. exact StmtProofs2.C14_include_step. Qed.
+
+Theorem C14_inplace_sequential : forall fuel env sk fname o pending ts s im ic gs1 v line gs3 full g ts0 gs2,
+  parse_groups fuel o pending ts = (gs1 ++ [SInclude v line] :: gs3, None) ->
+  no_includes gs1 -> no_includes gs3 -> List.length gs1 + S (List.length gs3) < fuel ->
+  resolve_file env (str_of_value v) = Some (full, g) -> settle (f_tokens g) = POk ts0 ->
+  parse_groups (fuel - S (List.length gs1)) (f_oracle g) false ts0 = (gs2, None) -> no_includes gs2 ->
+  List.length gs2 < fuel - S (List.length gs1) ->
+  parse_tokens fuel env sk fname o pending ts s im ic =
+  (let '(s1, r1) := consume env sk fname no_inc gs1 s im ic in
+   match r1 with SErr e => (s1, SErr e) | SOk (im1, ic1) =>
+     let '(s2, r2) := consume env sk full no_inc gs2 s1 [] [] in
+     match r2 with SErr e => (s2, SErr (with_loc_err (fname, line) e)) | SOk (im2, ic2) =>
+       let '(s3, r3) := consume env sk fname no_inc gs3 (add_imports im2 s2) im1 (ic1 ++ [INode (str_of_value v) im2 ic2]) in
+       match r3 with SErr e => (s3, SErr e) | SOk (im3, ic3) => (add_imports im3 s3, SOk (im3, ic3)) end end end).
+Proof. exact StmtProofs2.C14_inplace_sequential. Qed.
+
+(* exactly as in the flattened text: same registry, constants, store and lock, same success / error class *)
+Theorem C14_flatten : forall fuel env sk fname o pending ts s im ic gs1 v line gs3 full g ts0 gs2,
+  parse_groups fuel o pending ts = (gs1 ++ [SInclude v line] :: gs3, None) ->
+  no_includes gs1 -> no_includes gs3 -> List.length gs1 + S (List.length gs3) < fuel ->
+  resolve_file env (str_of_value v) = Some (full, g) -> settle (f_tokens g) = POk ts0 ->
+  parse_groups (fuel - S (List.length gs1)) (f_oracle g) false ts0 = (gs2, None) -> no_includes gs2 ->
+  List.length gs2 < fuel - S (List.length gs1) ->
+  sim (fst (parse_tokens fuel env sk fname o pending ts s im ic))
+      (fst (consume env sk fname no_inc (gs1 ++ gs2 ++ gs3) s im ic)) /\
+  res_sim (snd (parse_tokens fuel env sk fname o pending ts s im ic))
+          (snd (consume env sk fname no_inc (gs1 ++ gs2 ++ gs3) s im ic)).
+Proof. exact StmtProofs2.C14_flatten_store. Qed.
+
+(* the hypotheses of the two theorems above are satisfiable: main.gin = f.x=1 / include 'b.gin' / f.y=3 *)
+Theorem C14_flatten_nonvacuous : True.
+Proof. pose proof StmtProofs2.C14Example.hyps. exact I. Qed.
+
+Print Assumptions C14_resolve_order.
+Print Assumptions C14_resolve_first.
+Print Assumptions C14_absolute_bypasses.
+Print Assumptions C14_absolute_full_is_name.
+Print Assumptions C14_missing.
+Print Assumptions C14_missing_applies_nothing.
+Print Assumptions C14_missing_include_applies_nothing.
+Print Assumptions C14_include_step.
+Print Assumptions C14_inplace_sequential.
+Print Assumptions C14_flatten.
+Print Assumptions C14_flatten_nonvacuous.
